@@ -101,8 +101,11 @@ def generate(seed, tier="quick"):
     xrng = sub(seed, "xfail")
     for f in prog["files"]:
         for t in f["tests"]:
-            if xrng.random() < 0.12:
+            r = xrng.random()
+            if r < 0.12:
                 t["xfail"] = True
+            elif r < 0.2:
+                t["xfail"] = "false"  # xfail(False): not an expected failure, judged like every other test
         orng = sub(seed, "order")
         orng.shuffle(f["tests"])
     return {"program": prog, "config": draw_config(sub(seed, "config")), "cold": sub(seed, "cold").random() < 0.04 and not nested, "pytester": nested}
@@ -150,7 +153,7 @@ def execute(case, ctx):
     # xfail tests run with an inactive private state: they do not touch the session's sites
     vtests = virtual_tests(prog)
     events = [(fn, t["name"], e) for fn, t in vtests for e in t["events"]]
-    xfail = {(f["name"], t["name"]) for f in prog["files"] for t in f["tests"] if t.get("xfail")}
+    xfail = {(f["name"], t["name"]) for f in prog["files"] for t in f["tests"] if t.get("xfail") is True}
     m = SessionModel(src, ops, approved).run([ev for ev in events if (ev[0], ev[1]) not in xfail], V.pyval)
     spec = {"flags": cfg["flags"], "answers": cfg["answers"], "pytester": bool(case.get("pytester"))}
     if case.get("pytester"):
